@@ -128,7 +128,9 @@ func extendMacroEnv(macro *object.Macro, args []object.Quote) *State {
 	extended := object.NewEnclosedEnvironment(macro.Env)
 
 	for paramIdx, param := range macro.Parameters {
-		extended.Set(param.Value().Literal(), args[paramIdx])
+		// Parameters are always new local bindings (like function parameters): never an update, through a
+		// reference, of a macro or variable of the same name in the macro store.
+		extended.SetNoChecks(param.Value().Literal(), args[paramIdx], true)
 	}
 
 	return &State{env: extended}
